@@ -337,16 +337,17 @@ def _relocate(nodes, at):
 _hcache: dict = {}
 
 
-def with_helpers(ctx, fi, exclude=(), only_private=True, depth=3):
+def with_helpers(ctx, fi, exclude=(), only_private=True, depth=3, inline_locals=True):
     """FuncInfo whose node is a copy of fi.node in which calls of small same-class / same-module helpers are expanded:
     (1) `self._h(a, b)` as a statement, where _h returns nothing (raises / writes only) -> its body, parameters bound;
     (2) a call of a helper whose body is a single `return E` -> E with the parameters substituted.
     Locals of the helper are renamed apart.  The copy is then passed through `inlined`."""
-    key = (id(fi.node), tuple(exclude), only_private, depth)
+    key = (id(fi.node), tuple(exclude), only_private, depth, inline_locals)
     if key in _hcache:
         return _hcache[key]
     fn = copy.deepcopy(fi.node)
     counter = [0]
+    caller_names = {x.id for x in ast.walk(fn) if isinstance(x, ast.Name)} | {a.arg for a in ast.walk(fn) if isinstance(a, ast.arg)}
 
     def eligible(h):
         if h is None or h.node is fi.node:
@@ -382,13 +383,14 @@ def with_helpers(ctx, fi, exclude=(), only_private=True, depth=3):
                             counter[0] += 1
                             tag = f"__{h.name.strip('_')}{counter[0]}"
                             stored = {x.id for x in ast.walk(h.node) if isinstance(x, ast.Name) and isinstance(x.ctx, ast.Store)}
-                            rename = {nm: nm + tag for nm in stored}
+                            rename = {nm: nm + tag for nm in stored if nm in caller_names}
                             pre = []
                             mapping = {}
                             for p, a in m.items():
                                 if p in stored or not isinstance(a, (ast.Name, ast.Attribute, ast.Constant, ast.Subscript)):
-                                    pre.append(ast.Assign(targets=[ast.Name(id=p + tag, ctx=ast.Store())], value=copy.deepcopy(a), lineno=s.lineno))
-                                    rename[p] = p + tag
+                                    pn = p + tag if p in caller_names else p
+                                    pre.append(ast.Assign(targets=[ast.Name(id=pn, ctx=ast.Store())], value=copy.deepcopy(a), lineno=s.lineno))
+                                    rename[p] = pn
                                 else:
                                     mapping[p] = a
                             new = [_Subst(mapping, rename).visit(copy.deepcopy(x)) for x in (hb[:-1] if tail_ret else hb)]
@@ -397,6 +399,7 @@ def with_helpers(ctx, fi, exclude=(), only_private=True, depth=3):
                             for nd in new:
                                 ast.fix_missing_locations(nd)
                             expand_stmt_list(new, d - 1)
+                            caller_names.update(x.id for nd in new for x in ast.walk(nd) if isinstance(x, ast.Name))
                             body[i:i + 1] = new or [ast.copy_location(ast.Pass(), s)]
                             i += max(len(new), 1)
                             continue
@@ -435,7 +438,8 @@ def with_helpers(ctx, fi, exclude=(), only_private=True, depth=3):
     expand_stmt_list(fn.body, depth)
     fn = ExprExpand(depth).visit(fn)
     ast.fix_missing_locations(fn)
-    out = dataclasses.replace(fi, node=inlined(fn))
+    out = dataclasses.replace(fi, node=inlined(fn) if inline_locals else fn)
+    _keep.append(fn)
     _hcache[key] = out
     _keep.append(fi.node)
     return out
